@@ -12,7 +12,9 @@ CONSTANTS
   MaxCrash = 0
   AllowWindow = TRUE
   StartStates = {"empty", "data"}
+  OtherAtStart = {FALSE}
+  OnlyOnce = FALSE
 SPECIFICATION Spec
-INVARIANTS TypeOK PublishedWhenIdle
-PROPERTIES CommittedOnlyAfterStore LSNeverBackwards NoEchoUpload NoUploadBeforeOwnMerged BucketMonotone
+INVARIANTS TypeOK PublishedWhenIdle ReadyMeansLoaded ReadyMeansPublished ExitOnlyWhenDone
+PROPERTIES CommittedOnlyAfterStore LSNeverBackwards NoEchoUpload NoUploadBeforeOwnMerged BucketMonotone ReadyStable
 CHECK_DEADLOCK FALSE
